@@ -524,7 +524,7 @@ def rule_raceok(ctx, M, u):
         re_ = bi.outcome_edges(c.site, "Ready")
         oke = bi.outcome_edges(c.site, "Ready", "Ok")
         incs = [b for b, pt, d, sp in scan.increments(bi) if pt == scan.self_field("completed") and d == 1 and bi.guarded_by(b, re_)]
-        r = bi.body.reach([t for _, t in re_], avoid_blocks=incs, stop_blocks=exits, avoid_edges=list(avoid) + list(oke))
+        r = bi.reach_from_edges(re_, avoid_blocks=incs, stop_blocks=exits, avoid_edges=list(avoid) + list(oke))
         if not incs or not re_ or any(b in r for b in exits):
             probs.append("completed counter not incremented on the Err path")
         loose = [b for b, slot, idx, v, w in slot_writes(bi) if slot_is_child(M, u, c, slot, idx, b) and not bi.guarded_by(b, ee)]
